@@ -542,16 +542,15 @@ func c08fletcher(c *Ctx, r *Result) {
 	// the data returned is the input minus exactly the 4 checksum bytes, and Apply appends exactly 4
 	if fn := c.Fn(r, "writer.Fletcher32Filter.Apply"); fn != nil {
 		fb := c.FB(fn)
-		ok := false
-		instrs(fn, func(in ssa.Instruction) {
-			if mk, isMk := in.(*ssa.MakeSlice); isMk {
-				l := fb.lin(mk.Len)
-				want := fb.lenOfOperand(fn.Params[1]).add(linConst(4), 1)
-				if l.equal(want) {
-					ok = true
-				}
+		// the slice returned on success is 4 bytes longer than the input (make(len+4), or appends that add up to it)
+		want := fb.lenOfOperand(fn.Params[1]).add(linConst(4), 1)
+		rets := successReturns(fn)
+		ok := len(rets) > 0
+		for _, ret := range rets {
+			if !fb.lenOfOperand(retOperand(ret, 0)).equal(want) {
+				ok = false
 			}
-		})
+		}
 		r.Check(ok, "C08.4", "writer.Fletcher32Filter.Apply#appends-4-bytes", c.Pos(fn.Pos()), "output length is len(data)+4")
 		// checksum computed over the whole input and stored at result[len(data):]
 		okSum := false
@@ -651,6 +650,43 @@ func c08sumCoverage(c *Ctx, r *Result, fn *ssa.Function, rule string) {
 		for k, coef := range l.T {
 			if p, isP := k.(*ssa.Phi); isP && cur[p] && coef == 1 {
 				reads = append(reads, rd{p, l.C, ia.Block()})
+			}
+		}
+	})
+	// a multi-byte read binary.<order>.UintN(data[p+k:]) reads the N bytes from p+k (it panics on a shorter slice)
+	instrs(fn, func(in ssa.Instruction) {
+		call, ok := in.(*ssa.Call)
+		if !ok || len(call.Call.Args) == 0 {
+			return
+		}
+		name := c.calleeName(call)
+		if !strings.Contains(name, "binary") {
+			return
+		}
+		width := int64(0)
+		switch {
+		case strings.HasSuffix(name, ".Uint16"):
+			width = 2
+		case strings.HasSuffix(name, ".Uint32"):
+			width = 4
+		case strings.HasSuffix(name, ".Uint64"):
+			width = 8
+		default:
+			return
+		}
+		sl, ok := call.Call.Args[len(call.Call.Args)-1].(*ssa.Slice)
+		if !ok || sl.X != ssa.Value(data) || sl.Low == nil {
+			return
+		}
+		l := fb.lin(sl.Low)
+		if len(l.T) != 1 {
+			return
+		}
+		for k, coef := range l.T {
+			if p, isP := k.(*ssa.Phi); isP && cur[p] && coef == 1 {
+				for j := int64(0); j < width; j++ {
+					reads = append(reads, rd{p, l.C + j, call.Block()})
+				}
 			}
 		}
 	})
